@@ -142,6 +142,61 @@ theorem planShared_eq_planCopy_of_unsaturated (net : List (ℝ × Edfa ℝ)) (ps
     rw [this]
     simp only [hrest]
 
+/-! ### process-wide simulation parameters -/
+
+section sim
+variable {Net : Type}
+
+/-- **plan_leaves_simparams**: planning a batch never writes the process-wide simulation parameters — whatever the
+batch (sparse combs, full combs, blocked requests), they are after the batch what they were before; and every request
+of the batch is computed with those same parameters, so its result equals the result computed alone -/
+theorem plan_leaves_simparams (P : Pipeline (World Net) Request Result Slots SlotOut) (w : World Net) (s0 : Slots)
+    (reqs : List Request) :
+    (plan P w s0 reqs).settings.sim = w.sim ∧ (plan P w s0 reqs).settings.network = w.network ∧
+    (plan P w s0 reqs).results = reqs.map (P.computeOne ⟨w.network, w.sim⟩) := ⟨rfl, rfl, rfl⟩
+
+/-- the channel selection of the GGN methods only READS the parameters: whatever comb was evaluated before, a comb of
+`n` carriers gets the same indices -/
+theorem cutIndices_order_free (p : NliParams) (before : List Nat) (n : Nat) :
+    (before.map (cutIndices p) ++ [cutIndices p n]).getLast? = some (cutIndices p n) := by simp
+
+/-- a comb with at least as many carriers as `computed_number_of_channels` gets strictly increasing distinct indices
+starting at 0 and ending at the last channel (c ≥ 2) -/
+theorem cutIndices_ends (p : NliParams) (c n : Nat) (hc : 2 ≤ c) (h1 : p.computedChannels = none)
+    (h2 : p.computedNumberOfChannels = some c) (l : List Nat) (h : cutIndices p n = .ok l) :
+    l.length = c ∧ l.head? = some 0 ∧ l.getLast? = some (n - 1) := by
+  have hc1 : c ≠ 1 := by omega
+  simp only [cutIndices, h1, h2, hc1, if_false, Except.ok.injEq] at h
+  subst h
+  refine ⟨by simp, ?_, ?_⟩
+  · cases c with
+    | zero => omega
+    | succ k => simp [List.range_succ_eq_map, roundDiv]
+  · have hpos : 0 < c - 1 := by omega
+    have : (List.range c).getLast? = some (c - 1) := by
+      cases c with
+      | zero => omega
+      | succ k => simp [List.range_succ]
+    rw [List.getLast?_map, this]
+    simp only [Option.map_some, Option.some.injEq]
+    unfold roundDiv
+    have hq : (c - 1) * (n - 1) / (c - 1) = n - 1 := Nat.mul_div_cancel_left _ hpos
+    have hr : (c - 1) * (n - 1) % (c - 1) = 0 := Nat.mul_mod_right _ _
+    simp [hq, hr, hpos]
+
+/-- **simparams_leak_example**: with the write-back defect a sparse comb (2 carriers, 8 computed channels) computed
+BEFORE a full comb (12 carriers) leaves `computed_number_of_channels = 2` behind, and the full comb is then evaluated
+on channels {0, 11} instead of 8 channels; in the other order both get their correct indices -/
+theorem simparams_leak_example :
+    let p : NliParams := { method := "ggn_approx", computedChannels := none, computedNumberOfChannels := some 8 }
+    (selectAllClamping p [2, 12]).2 = [.ok [0, 1], .ok [0, 11]] ∧
+    (selectAllClamping p [2, 12]).1.computedNumberOfChannels = some 2 ∧
+    cutIndices p 12 = .ok [0, 2, 3, 5, 6, 8, 9, 11] ∧
+    (selectAllClamping p [12, 2]).2 = [.ok [0, 2, 3, 5, 6, 8, 9, 11], .ok [0, 1]] := by
+  decide
+
+end sim
+
 /-! ### non-vacuity -/
 example : (plan (⟨fun (s : Nat) (r : Nat) => s + r, fun (sl : Nat) x => (sl + 1, sl)⟩ : Pipeline Nat Nat Nat Nat Nat)
     5 0 [1, 2, 3]).results = [6, 7, 8] := by decide
